@@ -6,7 +6,7 @@ from .. import scenario as sc, clauses as cl
 PROP = "C03"
 LEVEL = "exploration"
 RULE = ("Hypothesis scenarios as for C02 plus L1/L2 regularisers (with and without bounds), zero-residual and "
-        "start-at-minimiser problems, scaling, noisy objectives with hard restarts. The recorder keeps (x, r) of every "
+        "start-at-minimiser problems, scaling, noisy objectives with hard restarts, and (10%) projection-constrained scenarios (1-2 convex sets; momentum steps, point-appending soft restarts and random regression sets kept; the projection routine is logged). The recorder keeps (x, r) of every "
         "call and the log gives each call's point number; soln.x / resid / obj are compared with the recorded data of "
         "evaluation point soln.xmin_eval_num. Every-iteration form: once per main-loop iteration (wrapper around the model's "
         "fitting method, read-only) every stored interpolation point is compared with the recorded data of the point number "
